@@ -510,7 +510,12 @@ fn judge(cx: &Cx, sweep: &str, case: &Case, choices: Vec<u32>, out: Outcome, st:
                 }
                 pos
             });
-            let cause = if case.max_file_size.is_some_and(|m| case.ops.len() > m || case.map_text.len() > m) {
+            // the multer defect shows as IncompleteStream (a size limit would show as PayloadTooLarge), so it is
+            // recognised first: a request whose operations part is longer than max_file_size can hit it too
+            let incomplete = e.to_string().contains("incomplete multipart stream");
+            let cause = if incomplete && before_pending.is_some_and(|b| b < 2 + BOUNDARY.len()) {
+                "pending-before-first-boundary-then-rest-to-eof"
+            } else if case.max_file_size.is_some_and(|m| case.ops.len() > m || case.map_text.len() > m) {
                 "non-file-part-over-max-file-size"
             } else if matches!((case.max_file_size, case.max_num_files), (Some(m), Some(n)) if case.body.len() > m * n) {
                 "whole-stream-budget"
